@@ -201,6 +201,19 @@ impl Check for C10 {
                 p
             }));
         }
+        // no stall at all: every form of card data the terminal may report (UIDs of 0..20 bytes, with
+        // and without zero padding, application lists) - the call must come back
+        {
+            let cards = crate::cchecks::all_cards();
+            let n = cards.len() as u64;
+            fams.push(Family::new("every_card_form_returns", n, true, move |i, _| {
+                let c = cards[i as usize].clone();
+                let ops = (0..2).map(|k| OpSpec::ReadCard { card: CardOutcome { pre: k, kind: c.clone(), delay_ms: 0 } }).collect();
+                let mut p = ClientPlan::plain(ops);
+                p.label = "cards".into();
+                p
+            }));
+        }
         // connects that never complete, from the start / after k good ones
         fams.push(Family::new("connect_never_completes", 5 * 6, true, {
             let wl = wl.clone();
@@ -325,7 +338,7 @@ impl Check for C10 {
             h.bytes(plan.cfg.terminal_id.as_bytes());
         }
         out.shape = h.finish();
-        out.nontrivial = !plan.faults.is_empty() || !plan.connects.is_empty() || plan.label == "tau" || plan.label == "beyond_range";
+        out.nontrivial = !plan.faults.is_empty() || !plan.connects.is_empty() || plan.label == "tau" || plan.label == "beyond_range" || plan.label == "cards";
         if want_trace {
             out.trace = run.trace();
         }
